@@ -702,7 +702,10 @@ def oracle_history(files, cmds, obs, exited_at, snaps, fault=None, final=None, n
                                 ' (the content it had when last read or last successfully written)' if fault else ''),
                             'refusal; text of %s = %r, file = %r' % (p, text[p], content.get(p)), 'editor exited')
             elif all(saved_state_before.values()):
-                if not gone:
+                # (under the shim: a wq / x whose own write part reports failure -- e.g. "file changed" after an earlier failed save has
+                # stamped the file -- stays because of that failure; more refusal, never less: no exit is demanded then)
+                wfail = fault is not None and ctext in ('wq', 'x') and k < len(obs) and b'write failed' in obs[k]['cmdout']
+                if not gone and not wfail:
                     return (k, ':q refused although every buffer is in its saved state', 'editor exits', 'still alive: ' + repr(obs[k]['cmdout'] if k < len(obs) else b''))
             if gone:
                 return None
